@@ -215,6 +215,10 @@ pub struct Case {
     /// None: coded; Some(h): the coding is not declared (or an unknown one is): pass-through
     pub passthrough: Option<String>,
     pub head_request: bool,
+    /// 0: default; 1: allow_compression(false) on the request; 2: on the session (the setting only
+    /// controls what is announced: a coded response must still be decoded)
+    #[serde(default)]
+    pub no_announce: u8,
 }
 
 fn spellings(c: Coding) -> Vec<(&'static str, &'static str)> {
@@ -351,12 +355,18 @@ fn run(c: &Case, s: &Stream) -> (Obs, Vec<u8>, bool) {
     let _w = World::single(script, false);
     let read = c.read;
     let head_request = c.head_request;
+    let no_announce = c.no_announce;
     let r = guarded(move || {
-        let rb = if head_request {
+        let rb = if no_announce == 2 {
+            let mut s = attohttpc::Session::new();
+            s.allow_compression(false);
+            s.get("http://h.test/z")
+        } else if head_request {
             attohttpc::head("http://h.test/z")
         } else {
             attohttpc::get("http://h.test/z")
         };
+        let rb = if no_announce == 1 { rb.allow_compression(false) } else { rb };
         let mut resp = match rb.send() {
             Ok(r) => r,
             Err(e) => return Obs::SendErr(e.to_string()),
@@ -463,6 +473,7 @@ fn cases_for(s: &Stream, tier: Tier) -> Vec<Case> {
         damage,
         passthrough: None,
         head_request: false,
+        no_announce: 0,
     };
     let nsp = spellings(s.coding).len();
     let head_len = 60; // heads are 40..80 bytes; cuts are placed relative to the end of the wire
@@ -550,6 +561,26 @@ fn cases_for(s: &Stream, tier: Tier) -> Vec<Case> {
             for framing in [Framing::Length, Framing::Chunked, Framing::Close] {
                 for r in [ReadMode::Const(7), ReadMode::Const(200000), ReadMode::Bytes] {
                     v.push(mk(framing, 0, Policy::default(), r, Damage::TrailerFlip(bit)));
+                }
+            }
+        }
+    }
+    // the announcement setting does not decide whether a coded response is decoded
+    if s.name.contains(".l6.") || s.name.contains(".multi.") {
+        for no_announce in [1u8, 2] {
+            for framing in [Framing::Length, Framing::Chunked, Framing::Close] {
+                for r in [ReadMode::Const(7), ReadMode::Bytes] {
+                    let mut c = mk(framing, 0, Policy::default(), r, Damage::None);
+                    c.no_announce = no_announce;
+                    v.push(c);
+                    if s.coding == Coding::Gzip && n > 12 {
+                        let mut c = mk(framing, 0, Policy::default(), r, Damage::TrailerFlip(3));
+                        c.no_announce = no_announce;
+                        v.push(c);
+                        let mut c = mk(framing, 0, Policy::default(), r, Damage::TruncConsistent(n - 3));
+                        c.no_announce = no_announce;
+                        v.push(c);
+                    }
                 }
             }
         }
